@@ -269,3 +269,126 @@ Example c05_okta_history :
         [Login 1 true; OktaOtp [0%nat] (VGood 1); OktaPushStart [0%nat]; OktaApprove 1; OktaPoll [0%nat]])
   = [(true, Some (1, 2)); (false, None); (false, None); (true, None); (false, None)]%N.
 Proof. split; vm_compute; reflexivity. Qed.
+
+(* ---- a refused second-factor attempt is pure (round 5) ---- *)
+From KM Require Import Model.SessionPure Proofs.SessionPure.
+
+(* For EVERY configuration of the code (repaired or not), EVERY state (reachable or not) and every
+   ATTEMPT — a request that presents something to be verified: a VIP / Okta pass code, a TOTP code, a
+   bootstrap OTP, a hardware-token assertion, the poll of a push transaction, a CLI token; bare, with a
+   client certificate, while profile writes fail, or served from the cache —: if the attempt is REFUSED
+   (it verifies nothing and emits no cookie) then it leaves the state exactly as the request found it
+   (`found`: the only difference to `s` is the ghost note of a presented certificate).  In particular
+   the stored profile (TOTP counter, bootstrap OTP) and the pending one-time values (challenges, push
+   transactions, CLI tokens) after a refused attempt equal those before: a failed attempt writes
+   nothing.  The model has no throttling state (the TOTP pause / lock-out record is C14's subject):
+   that is all a failed attempt may change in the code. *)
+Theorem c05_failed_attempt_pure : forall k s o,
+  attempt o = true -> refused k s o = true ->
+  step k s o = (found s o, None) /\ durable (fst (step k s o)) = durable s.
+Proof. intros k s o Ha Hr. split; [exact (refused_pure k s o Ha Hr) | exact (refused_durable k s o Ha Hr)]. Qed.
+
+(* ... which is what makes every interleaving of a refused attempt `w` with another request `b` harmless:
+   whichever of the two runs first, the final state and the answer of `b` are those of `b` alone.  At
+   storage granularity a refused attempt consists of reads only, so every interleaving of its storage
+   operations with those of `b` is one of these two orders (the harness enumerates the schedules of the
+   real handlers and checks exactly this: C05:onetime:<kind>:after-overlap). *)
+Theorem c05_failed_attempt_commutes : forall k s w b,
+  attempt w = true -> plain w = true ->
+  refused k s w = true -> refused k (fst (step k s b)) w = true ->
+  both k s w b = (fst (step k s b), (None, snd (step k s b))) /\
+  both k s b w = (fst (step k s b), (snd (step k s b), None)).
+Proof. exact refused_commutes. Qed.
+
+(* non-vacuity: a wrong bootstrap OTP / TOTP code is refused, the right one is not; right value || wrong
+   value in either order, then the right value again on a fresh session: refused *)
+Example c05_refused_examples :
+  refused kx s_pending (Bootstrap [1%nat] BBad) = true /\
+  refused kx s_pending (Bootstrap [1%nat] (BCode 2 0)) = false /\
+  refused kx s_pending (Totp [0%nat] TBad) = true /\
+  refused kx s_pending (Totp [0%nat] (TCode 1 100)) = false /\
+  snd (both kx (fst (both kx s_pending (Bootstrap [1%nat] BBad) (Bootstrap [1%nat] (BCode 2 0)))) (Login 2 true) (Bootstrap [3%nat] (BCode 2 0))) = (snd (step kx s_pending (Login 2 true)), None).
+Proof. exact refused_examples. Qed.
+
+(* THE CLIENT ADDRESS.  A request reaches the handlers with an address (r.RemoteAddr, and whatever
+   X-Forwarded-For / X-Real-IP / Forwarded say); a history is a list of (address, operation) pairs
+   (Model.SessionAddr).  For every configuration, from every state: histories that agree on their
+   operations give the same outputs, the same per-step observations and the same final state whatever
+   addresses their requests come from — the address is no input of any second-factor decision.  By
+   construction of `step_at`; the statement is what the correspondence holds the real handlers to (the
+   harness sends the requests of a history from different addresses, the case file evaluates
+   `run_obs_at` on the (address, operation) list) *)
+From KM Require Import Model.SessionAddr Proofs.SessionAddr.
+
+Theorem c05_address_irrelevant : forall k s (l l' : list areq),
+  map snd l = map snd l' ->
+  run_at k s l = run_at k s l' /\ run_obs_at k s l = run_obs_at k s l'.
+Proof. exact address_irrelevant. Qed.
+
+(* ... and evaluated on (address, operation) lists the machine is the one all theorems above are about *)
+Theorem c05_address_run : forall k s (l : list areq),
+  run_at k s l = run k s (map snd l) /\ run_obs_at k s l = run_obs k s (map snd l).
+Proof. intros k s l. split; [exact (run_at_ops k l s)|exact (run_obs_at_ops k l s)]. Qed.
+
+(* The contrast: the replay guard of validateUserTOTP written out with its two memories — the persisted
+   counter of the profile (not written while profiles come from the cache) and the in-memory counter of
+   totpLocalRateLimit[key] — for ANY key type with a correct boolean equality and ANY key function of
+   (user, client address) that ignores the address: in every history, from any state, once a request
+   presenting step c of user u was accepted, no later request presenting step c of user u is accepted,
+   whatever addresses, `cached` flags and write faults the requests in between and the two requests
+   themselves carry *)
+Theorem c05_totp_guard_once : forall (K : Type) (keq : K -> K -> bool) (key : N -> addr -> K),
+  (forall x y, keq x y = true <-> x = y) ->
+  (forall u a a', key u a = key u a') ->
+  forall s0 pre r post r',
+  g_user r' = g_user r -> g_code r' = g_code r ->
+  let s1 := fst (grun keq key s0 pre) in
+  snd (gstep keq key s1 r) = true ->
+  let s2 := fst (grun keq key (fst (gstep keq key s1 r)) post) in
+  snd (gstep keq key s2 r') = false.
+Proof. exact guard_once. Qed.
+
+(* the same over the answers of a history: of two requests presenting the same step of the same user, if
+   the earlier one is accepted the later one is refused *)
+Theorem c05_totp_guard_once_nth : forall (K : Type) (keq : K -> K -> bool) (key : N -> addr -> K),
+  (forall x y, keq x y = true <-> x = y) ->
+  (forall u a a', key u a = key u a') ->
+  forall l s0 i j r r',
+  (i < j)%nat -> nth_error l i = Some r -> nth_error l j = Some r' ->
+  g_user r' = g_user r -> g_code r' = g_code r ->
+  nth_error (snd (grun keq key s0 l)) i = Some true ->
+  nth_error (snd (grun keq key s0 l)) j = Some false.
+Proof. exact guard_once_nth. Qed.
+
+(* with the in-memory record keyed by (user, client address) — a correct equality on the keys, only the
+   key function looks at the address — the statement is false: the code of user 1 for step 100 is accepted
+   from address 0 and again from address 1 while profiles come from the cache; keyed by the user the second
+   request is refused *)
+Theorem c05_guard_by_address_refuted :
+  (forall x y, pair_eqb x y = true <-> x = y) /\
+  (exists pre r post r',
+     g_user r' = g_user r /\ g_code r' = g_code r /\ g_code r <> None /\
+     let s1 := fst (grun pair_eqb key_user_addr ginit pre) in
+     snd (gstep pair_eqb key_user_addr s1 r) = true /\
+     snd (gstep pair_eqb key_user_addr
+            (fst (grun pair_eqb key_user_addr (fst (gstep pair_eqb key_user_addr s1 r)) post)) r') = true) /\
+  snd (grun pair_eqb key_user_addr ginit w_guard_two_addresses) = [true; true] /\
+  snd (grun N.eqb key_user ginit w_guard_two_addresses) = [true; false].
+Proof. exact guard_by_address. Qed.
+
+(* ... and under the user key this guard IS the one of Model.Session's Totp step: with `last_totp` = the value
+   the guard compares with and `saved_totp` = the persisted counter (g_rel), a Totp request of user u presenting
+   a code of her own secret for a step in the window — with any certificate, write fault and read source — and
+   `gstep` on the corresponding request (from any address) keep the relation, accept together (the step is
+   recorded as spent exactly then), and a refusal leaves the session state as it was *)
+Theorem c05_totp_guard_is_session : forall k cert fault s cs u l stp g a,
+  totp_monotone k = true -> totp_mem_guard k = true ->
+  auth k s cert cs any_mask = Some (u, l) ->
+  has_totp (devs k u) = true -> (totp_step (now s) - 1 <= stp <= totp_step (now s) + 1)%Z ->
+  g_rel s g ->
+  let r := {| g_user := u; g_addr := a; g_cached := from_cache k; g_fault := fault; g_code := Some stp |} in
+  let s' := fst (step_req k cert fault s (Totp cs (TCode u stp))) in
+  g_rel s' (fst (gstep N.eqb key_user g r)) /\
+  (snd (gstep N.eqb key_user g r) = true <-> spent s' = OtTotp u stp :: spent s) /\
+  (snd (gstep N.eqb key_user g r) = false -> s' = s).
+Proof. exact totp_step_is_guard. Qed.
